@@ -15,6 +15,7 @@ import (
 	"sort"
 	"strings"
 	"sync"
+	"sync/atomic"
 	"time"
 
 	"github.com/yandex/pandora/core/config"
@@ -713,9 +714,92 @@ func nestedAndOverlap(res *vkit.Result) {
 	}
 }
 
+// sameFactoryConcurrently: the engine creates instances from several goroutines, all calling the
+// same decoded factory. Every product must be built from its own freshly created default
+// (counted by a serial the default function stamps) — no two products may share a configuration.
+func sameFactoryConcurrently(res *vkit.Result, rounds int) {
+	nodeType := plugin.PtrType((*Node)(nil))
+	var serial atomic.Int64
+	type shape struct {
+		name string
+		ctor any
+		def  any
+	}
+	shapes := []shape{
+		{"cnode-val", func(c NodeConf) Node { return &node{c} }, func() NodeConf { return NodeConf{Weight: int(serial.Add(1))} }},
+		{"cnode-ptr", func(c *NodeConf) (Node, error) { return &ptrNode{c}, nil }, func() *NodeConf { return &NodeConf{Weight: int(serial.Add(1))} }},
+	}
+	for _, sh := range shapes {
+		plugin.Register(nodeType, sh.name, sh.ctor, sh.def)
+		var h nodeHolder
+		c := map[string]any{"shape": sh.name, "probe": "one factory called from 16 goroutines"}
+		if err := config.Decode(map[string]any{"f": map[string]any{"type": sh.name, "name": "same"}}, &h); err != nil {
+			res.Violate("C18/concurrent-factory/decode", fmt.Sprintf("decode failed: %v", err), c)
+			continue
+		}
+		bad := ""
+		for r := 0; r < rounds && bad == ""; r++ {
+			const workers, per = 16, 50
+			out := make([][]Node, workers)
+			var wg sync.WaitGroup
+			start := make(chan struct{})
+			for w := 0; w < workers; w++ {
+				wg.Add(1)
+				go func(w int) {
+					defer wg.Done()
+					<-start
+					for i := 0; i < per; i++ {
+						n, err := h.F()
+						if err != nil {
+							return
+						}
+						out[w] = append(out[w], n)
+					}
+				}(w)
+			}
+			close(start)
+			wg.Wait()
+			seenSerial := map[int]int{}
+			seenPtr := map[*NodeConf]int{}
+			total := 0
+			for _, l := range out {
+				for _, n := range l {
+					total++
+					seenSerial[n.Info().Weight]++
+					if pn, ok := n.(*ptrNode); ok {
+						seenPtr[pn.c]++
+					}
+					if n.Info().Name != "same" {
+						bad = fmt.Sprintf("a product has name %q, want the decoded %q", n.Info().Name, "same")
+					}
+				}
+			}
+			if total != workers*per {
+				bad = fmt.Sprintf("%d products for %d factory calls", total, workers*per)
+			}
+			if len(seenSerial) != total {
+				bad = fmt.Sprintf("%d products were built from only %d freshly created default configurations", total, len(seenSerial))
+			}
+			if len(seenPtr) > 0 && len(seenPtr) != total {
+				bad = fmt.Sprintf("%d products share %d configuration objects", total, len(seenPtr))
+			}
+			res.Count("concurrent_factory_products", int64(total))
+		}
+		if bad != "" {
+			res.Violate("C18/concurrent-factory/shared-config", bad, c)
+		}
+		res.Eval(vkit.JSON(c), true)
+		res.Count("form_concurrent_factory", 1)
+	}
+}
+
+type ptrNode struct{ c *NodeConf }
+
+func (n *ptrNode) Info() NodeConf { return *n.c }
+
 func main() {
 	vkit.Fs() // registers the config hooks (pluginconfig.AddHooks via core import)
-	res := vkit.NewResult("exhaustive cross product of constructor shapes (component|factory × no config|struct|*struct × error result × inner error result / impl-typed result × default-config func) × requested form (New, factory with error, factory without error) × outcome (ok, constructor error, inner factory error, config error) × 1–5 factory calls with mutation of each product's config; plus every config-taking shape through the `type:` config hooks; plus plugins nested three deep in plugins of the same registered name and two overlapping creations (one held in the middle of decoding by a blocking field) for value/pointer/factory shapes; distinct = distinct (shape, form, outcome, calls); all are non-trivial")
+	res := vkit.NewResult("exhaustive cross product of constructor shapes (component|factory × no config|struct|*struct × error result × inner error result / impl-typed result × default-config func) × requested form (New, factory with error, factory without error) × outcome (ok, constructor error, inner factory error, config error) × 1–5 factory calls with mutation of each product's config; plus every config-taking shape through the `type:` config hooks; plus plugins nested three deep in plugins of the same registered name and two overlapping creations (one held in the middle of decoding by a blocking field) for value/pointer/factory shapes; plus one decoded factory called from 16 goroutines at once (every product must come from its own freshly created default); distinct = distinct (shape, form, outcome, calls); all are non-trivial")
 	n := 0
 	for _, s := range shapes() {
 		for _, form := range []string{"new", "factory-err", "factory-noerr"} {
@@ -739,6 +823,7 @@ func main() {
 	}
 	hookPass(res)
 	nestedAndOverlap(res)
+	sameFactoryConcurrently(res, vkit.N(60, 1500))
 	res.Set("exhaustive", true)
 	res.Set("shapes", len(shapes()))
 	res.Sample(Case{Shape: shapes()[5], Form: "factory-noerr", Outcome: "config-error", Calls: 2})
